@@ -31,7 +31,7 @@ def write_csvs(files, d):
         with open(os.path.join(d, sym + '.csv'), 'w') as f:
             f.write('Date,Open,High,Low,Close,Adj Close,Volume\n')
             for r in rows:
-                cell = lambda x: '' if x is None else repr(float(x))
+                cell = lambda x: '' if x is None else (str(x) if isinstance(x, int) and not isinstance(x, bool) else repr(float(x)))
                 f.write('%s,%s,1.0,1.0,%s,%s,100\n' % (r[0], cell(r[1]), cell(r[2]), cell(r[3])))
 
 
@@ -58,6 +58,22 @@ def gen_files(rng, syms, d0):
             c = round(rng.uniform(5, 300), rng.choice([2, 3, 6])) if rng.random() > 0.12 else None
             a = round((c or 50.0) * rng.choice([1, 1, 0.9, 0.5]), 6) if rng.random() > 0.12 else None
             rows.append([(d0 + dtm.timedelta(days=k)).isoformat(), o, c, a])
+        form = rng.random()
+        if form < 0.12:
+            # whole-number opens written without a decimal point and never missing (the column parses as integers);
+            # with form < 0.04 every price column is like that
+            for r in rows:
+                r[1] = int(round(r[1] if r[1] is not None else rng.uniform(5, 300)))
+                if form < 0.04:
+                    r[2] = int(round(r[2] if r[2] is not None else rng.uniform(5, 300)))
+                    r[3] = int(round(r[3] if r[3] is not None else r[2]))
+        elif form < 0.2 and len(rows) >= 3:
+            # a one-bar spike (x3 or /3) that reverts on the next bar, and one that persists
+            rows.sort(key=lambda r: r[0])
+            k = rng.randrange(1, len(rows) - 1)
+            f = rng.choice([3.0, 1 / 3.0, 5.0])
+            for j in range(k, len(rows) if rng.random() < 0.4 else k + 1):
+                rows[j] = [rows[j][0]] + [None if x is None else round(x * f, 4) for x in rows[j][1:]]
         if rows and rng.random() < 0.25:
             # a calendar that starts before the listing: leading rows whose price cells are all empty
             first = dtm.date.fromisoformat(min(r[0] for r in rows))
